@@ -42,6 +42,10 @@ func (bi BundleItem) bundleParts() (bundleParts []bpv7.Bundle, err error) {
 
 // Load the complete bpv7.Bundle for a BundleItem. If there are multiple fragments, a reassembly will be performed.
 func (bi BundleItem) Load() (b bpv7.Bundle, err error) {
+	if !bi.Fragmented {
+		return bi.Parts[0].Load()
+	}
+
 	var parts []bpv7.Bundle
 	if parts, err = bi.bundleParts(); err == nil {
 		b, err = bpv7.ReassembleFragments(parts)
